@@ -520,7 +520,8 @@ def ar_make_cases(rng, count, max_inverter_dim=6):
         via = ["search", "inverter", "search", "inverter_y"][k % 4]
         if n > max_inverter_dim:
             via = "search"   # the user-bijection wrapper is slow op-by-op in high dimension: keep the quick tier quick
-        cases.append(dict(n=n, fams=fams, coefs=coefs, L=L, M=M, xs=xs, lower=frs(lo), upper=frs(hi), tol=tol, mi=mi, via=via, style=style, nondyadic=nondy))
+        cases.append(dict(n=n, fams=fams, coefs=coefs, L=L, M=M, xs=xs, lower=frs(lo), upper=frs(hi), tol=tol, mi=mi, via=via, style=style, nondyadic=nondy,
+                          intb=(k % 3 == 1)))
     return cases
 
 
@@ -545,6 +546,9 @@ def parse_ar(out, mode):
 def real_ar(ac, jit):
     n = ac["n"]
     lower, upper = jnp.asarray(float(ac["lower"])), jnp.asarray(float(ac["upper"]))
+    intb = bool(ac.get("intb")) and float(ac["lower"]).is_integer() and float(ac["upper"]).is_integer()
+    if intb:   # integer-typed interval ends (as in the library's own test): results must not depend on the dtype of the bounds
+        lower, upper = jnp.asarray(int(ac["lower"])), jnp.asarray(int(ac["upper"]))
     via = ac["via"]
     if via == "inverter_y":
         # transform = map + y0 with a dyadic offset y0, inverted at y = y0  (fn = transform − y vanishes at xs)
@@ -561,7 +565,8 @@ def real_ar(ac, jit):
     def run():
         if via == "search":
             return _autoregressive_bisection_search(fn, lower=lower, upper=upper, tol=ac["tol"], length=n, max_iter=ac["mi"])
-        inv = AutoregressiveBisectionInverter(lower=float(ac["lower"]), upper=float(ac["upper"]), tol=ac["tol"], max_iter=ac["mi"])
+        inv = AutoregressiveBisectionInverter(lower=int(ac["lower"]) if intb else float(ac["lower"]), upper=int(ac["upper"]) if intb else float(ac["upper"]),
+                                              tol=ac["tol"], max_iter=ac["mi"])
         return inv(TriMap(fn, n), yv)
 
     if jit:
@@ -742,8 +747,9 @@ def oracle_scalar(case, jit):
         return dict(law="adapted bracket contains the root", bracket=[lo0, hi0], root=r)
     if not (0 <= real["it"] <= mi):
         return dict(law="0 <= iterations <= max_iter", iterations=real["it"])
-    bracket_res = 4 * EPS * max(abs(lo0), abs(hi0), 1.0)
-    bound = err_bound(tol, hi0 - lo0, mi) + res + bracket_res
+    # floating-point resolution AT THE ROOT'S magnitude (not the bracket's: the bracket shrinks onto the root)
+    root_res = 4 * EPS * max(abs(r), 1e-300)
+    bound = err_bound(tol, hi0 - lo0, mi) * (1 + 8 * EPS) + res + root_res
     if not (abs(real["root"] - r) <= bound):
         return dict(law="|root - r| <= max(tol, (hi0-lo0)/2^(max_iter+1)) + float resolution", got=real["root"], root=r, bound=bound,
                     bracket=[lo0, hi0], iterations=real["it"], adapt_iterations=real["ai"])
@@ -837,6 +843,13 @@ def flat_steep_cases(rng, n):
         root = frs(root)
         cases.append(dict(fam="lin", coef=[a, -a * root], root=root, lower=frs(lo), upper=frs(hi), tol=rng.choice([1e-5, 1e-7, 1e-9]),
                           mi=200, how="flat-steep"))
+    # very wide initial intervals around a small root, tight tolerance: the tolerance must be met at the ROOT's resolution
+    for k in range(max(4, n // 5)):
+        lo, hi = rng.choice([(-10 ** 8, 10 ** 8), (-10 ** 9, 10 ** 9), (-3 * 10 ** 9, 10 ** 3), (-10 ** 6, 10 ** 12)])
+        root = frs(Fr(rng.randrange(-4000, 4000), 1024))
+        a = Fr(rng.choice([1, 2, 3]), rng.choice([1, 2, 4]))
+        cases.append(dict(fam="lin", coef=[a, -a * root], root=root, lower=frs(lo), upper=frs(hi), tol=rng.choice([1e-9, 1e-8, 1e-10]),
+                          mi=200, how="wide-interval"))
     return cases
 
 
